@@ -97,6 +97,11 @@ func (e c04ErrOdd) Is(error) bool {
 	return false
 }
 
+// c04SelfL gives a list that holds the value again.
+type c04SelfL struct{}
+
+func (v c04SelfL) Interface() interface{} { return []interface{}{"x", v} }
+
 type c04SelfI struct{}
 
 func (v c04SelfI) Interface() interface{} { return v }
@@ -112,6 +117,12 @@ func c04Ctx() *plush.Context {
 	ctx.Set("partialFeeder", func(name string) (string, error) {
 		if name == "ok" {
 			return "P<%= 1 %>", nil
+		}
+		if name == "selfp" {
+			return "s<%= partial(\"selfp\") %>", nil
+		}
+		if name == "callsf" {
+			return "c<%= f() %>", nil
 		}
 		if name == "uw" {
 			return "P<%= c_errNilEmbedded() %>", nil
@@ -264,7 +275,7 @@ func c04Run(b *core.B) {
 		cell("iterators-printed", t)
 	}
 	// a value whose Interface() gives the value itself
-	for _, t := range []string{"<%= selfI %>", "<%= [selfI] %>", "<%= if (true) { %><%= selfI %><% } %>", "<%= pselfI %>"} {
+	for _, t := range []string{"<%= selfI %>", "<%= [selfI] %>", "<%= if (true) { %><%= selfI %><% } %>", "<%= pselfI %>", "<%= selfL %>", "<%= [selfL, 1] %>"} {
 		idx++
 		if !b.Mine(idx) || !b.Begin("self-interface: "+t) {
 			continue
@@ -272,6 +283,7 @@ func c04Run(b *core.B) {
 		ctx := c04Ctx()
 		ctx.Set("selfI", c04SelfI{})
 		ctx.Set("pselfI", &c04SelfI{})
+		ctx.Set("selfL", c04SelfL{})
 		r := renderQuiet(t, ctx)
 		b.Count("values-whose-Interface-is-themselves")
 		b.NonTrivialDistinct()
@@ -284,6 +296,10 @@ func c04Run(b *core.B) {
 		"<% contentFor(\"c\") { %>a<%= contentOf(\"c\") %><% } %><%= contentOf(\"c\") %>",
 		"<% contentFor(\"a\") { %><%= contentOf(\"b\") %><% } %><% contentFor(\"b\") { %><%= contentOf(\"a\") %><% } %><%= contentOf(\"a\") %>",
 		"<% contentFor(\"c\") { %><%= cap() { %><%= contentOf(\"c\") %><% } %><% } %><%= contentOf(\"c\") %>",
+		// the same through partials and template functions, and with much between two calls
+		"<%= partial(\"selfp\") %>", "<% let f = fn() { return partial(\"callsf\") } %><%= f() %>",
+		"<% let f = fn() { " + strings.Repeat("if (true) { ", 100) + "return f()" + strings.Repeat(" }", 100) + " } %><%= f() %>",
+		"<% let f = fn(x) { return f(x) } %><%= f(1) %>",
 	} {
 		cell("blocks-that-replay-themselves", t)
 	}
